@@ -1,10 +1,17 @@
 #!/bin/bash
+# Re-run every registered check (quick tier) against each seeded change kept under /verif/seeded,
+# six scratch worktrees at a time. C02-F is only visible to the thorough tier (DBGASSERT1).
 cd /verif
-ls seeded | grep -E "^C[0-9]+-[ABCDEF]$" > /tmp/recheck-list.txt
-mapfile -t L < /tmp/recheck-list.txt
+mapfile -t L < <(ls seeded | grep -E "^C[0-9]+-[A-F]$")
 n=${#L[@]}
+out=$(mktemp -d)
 for w in 0 1 2 3 4 5; do
-  ( for ((i=w; i<n; i+=6)); do python3 tools/seed_eval.py /tmp/seed-out/${L[$i]} --recheck 2>&1 | grep -v conda | tail -1; done > /tmp/recheck-w$w.log 2>&1 ) &
+  ( for ((i=w; i<n; i+=6)); do SE_TARGET=/tmp/se-target-$w python3 tools/seed_eval.py /verif/seeded/${L[$i]} --recheck 2>&1 | grep -v conda | tail -1; done > $out/w$w.log 2>&1 ) &
 done
 wait
-echo done > /tmp/recheck-done
+python3 tools/seed_eval.py /verif/seeded/C02-F --recheck --tier=thorough 2>&1 | tail -1 > $out/c02f.log
+cat $out/w*.log | grep "fired={}" | grep -v "^C02-F" && echo "UNDETECTED (above)"
+cat $out/c02f.log
+cat $out/w*.log | wc -l
+rm -rf $out /tmp/se-target-[0-5]
+python3 tools/seed_report.py | tail -1
